@@ -46,7 +46,7 @@ CHECKS = {
          "Every sequence of up to 2 (3) of 47 well-/ill-formed variants of the interpreted extensions in outer and sealed inner hellos, every length field set to {0,-1,+1,max} singly and pairwise, every message cut, every first-record type, and record/ServerHello/second-hello mutations in both directions after accepted and passed-through hellos are executed on the real Conn; no panic, no zero-progress return, bounded retained heap, no hang. The deadline clause (NewConn returns by its context deadline when the client stalls at any byte) is decided by the scheduler-based check registered with C10's engine.",
          "inputs are grammar-bounded, not arbitrary byte noise; memory measured as retained heap after the call with harness-held bytes subtracted", "§3 C08"),
  "C06": ("model_checking", "E4 hist + E3 gosched",
-         "explicit-state model of the retry protocol; every history up to the depth bound over a 24-event alphabet replayed on fresh real Conns, model and implementation compared after every event; plus controlled-scheduler exploration of the same protocol with Read and Write running concurrently (sub-run on the instrumented sources)",
+         "explicit-state model of the retry protocol; every history up to the depth bound over a 26-event alphabet replayed on fresh real Conns, model and implementation compared after every event; plus controlled-scheduler exploration of the same protocol with Read and Write running concurrently (sub-run on the instrumented sources)",
          "The model (accepted / pass-through flags / armed-by-HRR / retried / dead) is stepped alongside the real Conn for every history of length 4 (thorough 5) over 18 client and 6 backend events, from three initial situations; bytes delivered, error class, alert bytes and close are compared at every step; reachable model states and transitions are counted. A second part pumps the real instrumented Conn from two threads plus a reacting client thread (56 scenarios) and explores all schedules with at most 3 (6) deviations: both byte streams, the error class and the alert must equal the sequential outcome.",
          "model written from the property statement; whole-record events (fragmentation is C07); reference sender validated against crypto/tls", "§3 C06"),
  "C01": ("exploration", "E1 enum",
@@ -63,7 +63,7 @@ CHECKS = {
          "model in checks/c14 (chains <=3 must be followed, longer ones may be abandoned; loops end in fallback or error); mixed alias/service RRsets excluded", "§3 C14"),
  "C16": ("model_checking", "E4 hist + E3 gosched",
          "history enumeration against a map-based cache model (virtual clock, in-memory DoH, every history up to the depth bound) + controlled-scheduler exploration of concurrent lookups + deterministic write-footprint oracle",
-         "Every history of length 6 (thorough 8) over 10 events (two lookups, four clock advances, zone version change, three failure toggles) is replayed on a fresh Resolver and compared with the model's per-key prediction of upstream queries and admissible content versions; concurrent lookups on colliding keys are explored under the controlled scheduler; Targets/Resolve on shared results are checked byte-for-byte for writes into shared memory.",
+         "Every history of length 6 (thorough 8) over 11 events (two lookups, three clock advances, NXDOMAIN for the HTTPS query only, zone version change, three failure toggles, re-sizing the live cache) is replayed on a fresh Resolver and compared with the model's per-key prediction of upstream queries and admissible content versions; concurrent lookups on colliding keys are explored under the controlled scheduler; Targets/Resolve on shared results are checked byte-for-byte for writes into shared memory.",
          "clock/transport owned via verif hooks; responses without records carry no TTL bound; plain data races are covered by the footprint oracle and a supplementary (sampled, reported separately, never counted as exploration) free-running -race pass", "§3 C16"),
  "C20": ("model_checking", "E4 hist + E2 envx + cfmem",
          "history enumeration of publishes against a map-based model over an in-memory fake of the Cloudflare API; API failures as single deviations at every request index",
@@ -71,7 +71,7 @@ CHECKS = {
          "parameter values without spaces; fake API follows Cloudflare v4 list semantics (count = items on the page)", "§3 C20"),
  "C18": ("model_checking", "E3 gosched",
          "stateless model checking of the real Dial under a controlled scheduler: sources rewritten at check time (goroutines, channels, select, WaitGroup, context, timers -> shims), all schedules up to a deviation bound in virtual time, monitors over the event log",
-         "For every scenario of the grid (1..3 (4) targets x 12 per-target plans (incl. an ECH rejection followed by a hanging retry, a success that ignores its deadline, a host name with slow DNS lookups) x MaxConcurrency x delay/timeout x caller cancellation time) every schedule with at most 1 (2) deviations from the canonical one (2 in the quick tier for scenarios with at most 2 targets) is executed on the real code; monitors check start order, in-flight bound, staggering (delay or one reported failure per early start), per-attempt timeout, first success wins, every other established connection closed exactly once, joined errors, prompt return on cancellation, cancelled context for attempts after the decision, and termination of every goroutine.",
+         "For every scenario of the grid (1..3 (4) targets x 13 per-target plans (incl. an ECH rejection followed by a hanging retry, a success that ignores its deadline, a host name with slow DNS lookups, a second name on the previous target's address) x MaxConcurrency x delay/timeout x caller cancellation time, plus RequireECH scenarios whose targets come from one resolution result with some records lacking an ech parameter) every schedule with at most 1 (2) deviations from the canonical one (2 in the quick tier for scenarios with at most 2 targets) is executed on the real code; monitors check start order, in-flight bound, staggering (delay or one reported failure per early start), per-attempt timeout, first success wins, every other established connection closed exactly once, joined errors, prompt return on cancellation, cancelled context for attempts after the decision, and termination of every goroutine.",
          "computation takes zero virtual time; sequentially consistent memory at synchronisation granularity; IP-literal addresses; scripted DialFunc honouring its context; executions per scenario capped (cap reported when hit)", "§3 C18"),
  "C10": ("model_checking", "E3 gosched",
          "stateless model checking of the real NewConn under a controlled scheduler (sources rewritten at check time), all schedules up to a deviation bound in virtual time",
